@@ -101,8 +101,8 @@ def run(chk, ctx):
     keys = [k for k, _ in ctx.index_mapping()]
     f = F.UnmarshalFacts(ctx, keys[0] if keys else None)
     data = f.data
-    if f.header is None:
-        raise AnalysisError('no header read in frame.unmarshal')
+    if not F.header_or_violation(chk, 'C18.B', f):
+        return
     hsize = f.header.size
     size_t = f.hfield(2)
     seen = set()
